@@ -189,6 +189,13 @@ def conditions(tier):
         out += c03b.conditions(tier)
     except ImportError:
         pass
+    # the index the stream reads from: C04's file family (two of its groups) - record offsets, line widths
+    # and lengths as the indexer derives them, random access and masked re-streaming of every record
+    from vlib.props import c04
+    for c in c04.c13_conditions(tier):
+        if c.tier == "quick" and "w2_lf" in c.name and "lead" in c.name:
+            c.name = "index_feeding_the_stream_" + c.name[len("indexer_"):]
+            out.append(c)
     return out
 
 
